@@ -73,6 +73,10 @@ mod tests;
 #[cfg(kani)]
 mod verif_kani;
 
+// native replay entry points for /verif (cargo feature `verif_hooks`)
+#[cfg(feature = "verif_hooks")]
+pub mod verif_hooks;
+
 /// Secondary storage of RisingLight.
 pub struct SecondaryStorage {
     /// Catalog of the database
